@@ -2,11 +2,12 @@
     Each theorem is the specification of one function of the model WITH ITS TOLERANCE WRITTEN IN;
     statements only, each closed by [exact].  [V] = points and vectors over R, [S] = segments, [T] = triangles.
     Constants: [tinyR] = 100 * 2^-52, [epsR] = 2^-52, [e5] = 1e-5, [e6] = 1e-6, [e8] = 1e-8.
-    The [_refuted] theorems record where the CURRENT code departs from the property (findings F5, F11 and the
-    parametrisation of [contains_point]); the [C19_fixed_*] theorems are about the repaired
-    [get_intersection_pt] of Model/SegmentFixed.v (patch in deliver/patches). *)
+    Finding F5 (skew segments reported as crossing, common start point missed) was repaired in /repo by fix ec384e6;
+    the segment theorems of section 2 are about the live code, the [C19_pinned_*] theorems keep the machine-checked
+    record of the defect about the code before the fix (Model/PinnedSegment.v).  The remaining [_refuted] theorems
+    record where the live code still departs from the property (F11 and the parametrisation of [contains_point]). *)
 From Coq Require Import ZArith Reals List Bool Floats.
-From G3 Require Import Model.Num Model.NumF Model.Base Model.Vec Model.BBox Model.Transform Model.Hit Model.Segment Model.SegmentFixed
+From G3 Require Import Model.Num Model.NumF Model.Base Model.Vec Model.BBox Model.Transform Model.Hit Model.Segment Model.PinnedSegment
   Model.Triangle Model.Areas Proofs.C19_vec Proofs.C19_segment Proofs.C19_triangle Proofs.C19_areas Proofs.C19_examples.
 Local Open Scope R_scope.
 
@@ -72,60 +73,74 @@ Theorem C19_collinear_measure_is_distance_times_length : forall a b c : V, vlen2
   vlen (vcross (vsub b a) (vsub c b)) = vlen (vsub b a) * vlen (vsub c (foot a b c)).
 Proof. exact (fun a b c H => conj (proj1 (collinear_measure2 a b c H)) (collinear_measure a b c H)). Qed.
 
-(** ** 2. segments (current code) *)
-(** [solved s r ta tb]: in the projection chosen by the code (first of n.z, n.x, n.y above 1e-5, n = a x b) two
-    coordinates of s(ta) and r(tb) coincide, and the third differs by (delta . n) / n_k *)
+(** ** 2. segments: the live code (after fix ec384e6: the coplanarity test is |delta . n| <= 1e-5 |n|, i.e. the distance
+    between the two supporting lines is at most 1e-5; n = a x b, delta = s.start - r.start, [triple s r] = delta . n) *)
+(** skew segments are never reported: lines further apart than 1e-5 give [None] (and the F5 witness is rejected) *)
+Theorem C19_segment_skew_never_reported :
+  (forall s r : S, e5 * vlen (seg_normal s r) < Rabs (triple s r) -> seg_get_intersection_pt s r = None) /\
+  (seg_get_intersection_pt f5_s f5_r = None /\ seg_intersect f5_s f5_r = None /\ seg_touches f5_s f5_r = None).
+Proof. exact (conj gip_skew_none f5_rejected). Qed.
+(** in the projection chosen by the code (first of n.z, n.x, n.y above 1e-5) two coordinates of s(ta) and r(tb)
+    coincide, the third differs by (delta . n) / n_k; and the lines are within the tolerance *)
 Theorem C19_segment_parameters_solve_projection : forall (s r : S) (ta tb : R),
   seg_get_intersection_pt s r = Some (ta, tb) ->
-  let n := seg_normal s r in let P := seg_at s ta in let Q := seg_at r tb in
-  (e5 < Rabs (vz n) /\ vx P = vx Q /\ vy P = vy Q /\ (vz P - vz Q) * vz n = triple s r) \/
-  (Rabs (vz n) <= e5 /\ e5 < Rabs (vx n) /\ vy P = vy Q /\ vz P = vz Q /\ (vx P - vx Q) * vx n = triple s r) \/
-  (Rabs (vz n) <= e5 /\ Rabs (vx n) <= e5 /\ e5 < Rabs (vy n) /\ vx P = vx Q /\ vz P = vz Q /\ (vy P - vy Q) * vy n = triple s r).
+  (let n := seg_normal s r in let P := seg_at s ta in let Q := seg_at r tb in
+   (e5 < Rabs (vz n) /\ vx P = vx Q /\ vy P = vy Q /\ (vz P - vz Q) * vz n = triple s r) \/
+   (Rabs (vz n) <= e5 /\ e5 < Rabs (vx n) /\ vy P = vy Q /\ vz P = vz Q /\ (vx P - vx Q) * vx n = triple s r) \/
+   (Rabs (vz n) <= e5 /\ Rabs (vx n) <= e5 /\ e5 < Rabs (vy n) /\ vx P = vx Q /\ vz P = vz Q /\ (vy P - vy Q) * vy n = triple s r)) /\
+  Rabs (triple s r) <= e5 * vlen (seg_normal s r).
 Proof. exact gip_solved. Qed.
-(** the reported parameters locate ONE 3-D point exactly when the four end points are coplanar (delta . (a x b) = 0) *)
+(** the reported parameters locate ONE 3-D point exactly when the four end points are coplanar; in general the two
+    located points differ along one axis, by |delta . n| / |n_k| *)
 Theorem C19_segment_points_coincide_iff_coplanar : forall (s r : S) (ta tb : R),
   seg_get_intersection_pt s r = Some (ta, tb) ->
-  (seg_at s ta = seg_at r tb <-> triple s r = 0) /\ (coplanar s r -> seg_at s ta = seg_at r tb).
-Proof. exact (fun s r ta tb H => conj (solved_coincide_iff s r ta tb (gip_solved s r ta tb H)) (gip_coplanar_3d s r ta tb H)). Qed.
-(** if the supporting lines do meet, the reported parameters (if any) are those of the meeting point *)
+  (seg_at s ta = seg_at r tb <-> triple s r = 0) /\ (coplanar s r -> seg_at s ta = seg_at r tb) /\
+  exists nk, e5 < Rabs nk /\ (nk = vx (seg_normal s r) \/ nk = vy (seg_normal s r) \/ nk = vz (seg_normal s r)) /\
+             vlen2 (vsub (seg_at s ta) (seg_at r tb)) * (nk * nk) = triple s r * triple s r.
+Proof.
+  exact (fun s r ta tb H => conj (solved_coincide_iff s r ta tb (proj1 (gip_solved s r ta tb H)))
+          (conj (gip_coplanar_3d s r ta tb H) (solved_gap s r ta tb (proj1 (gip_solved s r ta tb H))))).
+Qed.
+(** a genuine meeting point of the supporting lines is reported, with its parameters, whenever the directions are not
+    "same direction" and some component of n exceeds 1e-5; and nothing else is ever reported for such lines *)
 Theorem C19_segment_parameters_complete : forall (s r : S) (ta tb : R) (t : R * R),
   seg_at s ta = seg_at r tb ->
   (seg_get_intersection_pt s r = Some t -> t = (ta, tb)) /\
-  (vis_same_direction (seg_as_vec s) (seg_as_vec r) = false -> ~ tiny (vcross (seg_delta s r) (seg_normal s r)) ->
+  (vis_same_direction (seg_as_vec s) (seg_as_vec r) = false ->
    (e5 < Rabs (vz (seg_normal s r)) \/ e5 < Rabs (vx (seg_normal s r)) \/ e5 < Rabs (vy (seg_normal s r))) ->
    seg_get_intersection_pt s r = Some (ta, tb)).
 Proof. exact (fun s r ta tb t E => conj (gip_complete s r ta tb t E) (gip_reports s r ta tb E)). Qed.
-(** when parameters are returned at all -- the scalar triple product (coplanarity) does not enter: finding F5 *)
 Theorem C19_segment_reported_iff : forall s r : S,
   (exists t, seg_get_intersection_pt s r = Some t) <->
   vis_same_direction (seg_as_vec s) (seg_as_vec r) = false /\
-  ~ tiny (vcross (seg_delta s r) (seg_normal s r)) /\
+  Rabs (triple s r) <= e5 * vlen (seg_normal s r) /\
   (e5 < Rabs (vz (seg_normal s r)) \/ e5 < Rabs (vx (seg_normal s r)) \/ e5 < Rabs (vy (seg_normal s r))).
 Proof. exact gip_some_iff. Qed.
-Theorem C19_segment_intersect_touches_spec :
-  (forall (s r : S) (p : V),
-  seg_intersect s r = Some p <->
-  exists ta tb, seg_get_intersection_pt s r = Some (ta, tb) /\ (0 <= ta < 1 /\ e8 <= tb < 1 - e8) /\ p = seg_at s ta) /\
-  (forall (s r : S) (p : V),
-  seg_touches s r = Some p <->
-  exists ta tb, seg_get_intersection_pt s r = Some (ta, tb) /\ (0 <= ta <= 1 /\ 0 <= tb <= 1) /\ p = seg_at s ta).
-Proof.
-  exact (conj (seg_intersect_spec)
-              (seg_touches_spec)).
-Qed.
+Theorem C19_segment_intersect_touches_spec : forall (s r : S) (p : V),
+  (seg_intersect s r = Some p <->
+   exists ta tb, seg_get_intersection_pt s r = Some (ta, tb) /\ (0 <= ta < 1 /\ e8 <= tb < 1 - e8) /\ p = seg_at s ta) /\
+  (seg_touches s r = Some p <->
+   exists ta tb, seg_get_intersection_pt s r = Some (ta, tb) /\ (0 <= ta <= 1 /\ 0 <= tb <= 1) /\ p = seg_at s ta).
+Proof. exact (fun s r p => conj (seg_intersect_spec s r p) (seg_touches_spec s r p)). Qed.
 (** crossing excludes, touching includes, contact at the second segment's end points; crossing implies touching *)
 Theorem C19_segment_endpoint_contact : forall (s r : S) (ta tb : R) (p : V),
   (seg_get_intersection_pt s r = Some (ta, tb) -> tb = 0 \/ tb = 1 ->
    seg_intersect s r = None /\ (0 <= ta <= 1 -> seg_touches s r = Some (seg_at s ta))) /\
   (seg_intersect s r = Some p -> seg_touches s r = Some p).
 Proof. exact (fun s r ta tb p => conj (seg_endpoint_contact s r ta tb) (seg_intersect_touches s r p)). Qed.
-(** [known_skew s r] = (delta . (a x b) <> 0), a decidable predicate on the input: the class of finding F5.
-    Outside it every reported touch (hence every crossing) is a genuine common point of the two segments *)
-Theorem C19_segment_touch_is_common_point_outside_known_class : forall (s r : S) (p : V),
-  (known_skew s r = false <-> coplanar s r) /\
-  (known_skew s r = false -> seg_touches s r = Some p ->
-   exists ta tb, 0 <= ta <= 1 /\ 0 <= tb <= 1 /\ p = seg_at s ta /\ p = seg_at r tb).
-Proof. exact (fun s r p => conj (known_skew_false s r) (touches_sound_outside_known s r p)). Qed.
+(** every reported touch (hence crossing) lies on supporting lines at most 1e-5 apart, and is a genuine common point of
+    the two segments when the end points are exactly coplanar *)
+Theorem C19_segment_touch_is_common_point : forall (s r : S) (p : V), seg_touches s r = Some p ->
+  (Rabs (triple s r) <= e5 * vlen (seg_normal s r) /\
+   exists ta tb, 0 <= ta <= 1 /\ 0 <= tb <= 1 /\ p = seg_at s ta /\ solved s r ta tb) /\
+  (coplanar s r -> exists ta tb, 0 <= ta <= 1 /\ 0 <= tb <= 1 /\ p = seg_at s ta /\ p = seg_at r tb).
+Proof. exact (fun s r p H => conj (seg_touch_lines_close s r p H) (fun C => seg_touch_coplanar_sound s r p C H)). Qed.
+(** segments with a common start point touch there (contact at the second segment's end point), and do not cross *)
+Theorem C19_segment_common_start_touches : forall s r : S,
+  sstart s = sstart r -> vis_same_direction (seg_as_vec s) (seg_as_vec r) = false ->
+  (e5 < Rabs (vz (seg_normal s r)) \/ e5 < Rabs (vx (seg_normal s r)) \/ e5 < Rabs (vy (seg_normal s r))) ->
+  seg_get_intersection_pt s r = Some (0, 0) /\ seg_touches s r = Some (sstart s) /\ seg_intersect s r = None.
+Proof. exact gip_common_start. Qed.
 (** contains_point / contains: the parameter is read along the FIRST axis whose extent exceeds EPSILON (resp. 1e-6) *)
 Theorem C19_segment_contains_spec :
   (forall (s : S) (p : V),
@@ -155,84 +170,67 @@ Proof.
               (seg_midpoint_spec)).
 Qed.
 
-(** ** 2'. where the current code violates the property *)
-(** F5, witness: (0,0,0)-(1,0,0) and (1/2,-1,1)-(1/2,1,1) are nowhere closer than 1, yet "cross" at (1/2,0,0) *)
-Theorem C19_segment_skew_reported_as_crossing_refuted :
-  (seg_get_intersection_pt f5_s f5_r = Some (1/2, 1/2) /\
-  seg_intersect f5_s f5_r = Some (mkV3 (1/2) 0 0) /\ seg_touches f5_s f5_r = Some (mkV3 (1/2) 0 0) /\
-  seg_at f5_s (1/2) = mkV3 (1/2) 0 0 /\ seg_at f5_r (1/2) = mkV3 (1/2) 0 1 /\
-  ~ coplanar f5_s f5_r /\ (forall ta tb, vlen2 (vsub (seg_at f5_s ta) (seg_at f5_r tb)) >= 1)) /\
-  (forall (s r : S) (ta tb : R),
-  known_skew s r = true -> seg_get_intersection_pt s r = Some (ta, tb) -> seg_at s ta <> seg_at r tb).
-Proof.
-  exact (conj (f5_refuted)
-              (known_skew_wrong)).
-Qed.
-(** F5, the class: EVERY non-coplanar pair that gets an answer gets two different points *)
-(** F5, second class: segments starting at the same point are never reported (although they touch there) *)
-Theorem C19_segment_common_start_class_refuted :
-  (forall s r : S, known_common_start s r = true <-> sstart s = sstart r) /\
-  (forall s r : S, known_common_start s r = true -> seg_get_intersection_pt s r = None) /\
-  (exists s r : S, sstart s = sstart r /\ coplanar s r /\ vdot (seg_as_vec s) (seg_as_vec r) = 0 /\
-                   seg_at s 0 = seg_at r 0 /\ seg_touches s r = None).
-Proof. exact (conj known_common_start_true (conj known_common_start_none common_start_refuted)). Qed.
+(** ** 2'. where the live code still violates the property *)
 (** F11: two 5 cm edges at 26.6 degrees (sin^2 = 1/5) are "same direction"; their genuine crossing is not reported *)
 Theorem C19_segment_short_edges_crossing_missed_refuted :
   vlen2 (vcross f11_a f11_b) = vlen2 f11_a * vlen2 f11_b * (1 / 5) /\
   seg_at f11_s (2/5) = seg_at f11_r (1/2) /\ (0 <= 2/5 < 1 /\ e8 <= 1/2 < 1 - e8) /\
   seg_get_intersection_pt f11_s f11_r = None /\ seg_intersect f11_s f11_r = None /\ seg_touches f11_s f11_r = None.
 Proof. exact (conj (proj2 f11_parallel) f11_refuted). Qed.
-(** executed on primitive floats (the instance run against the crate) *)
+
+(** ** 2''. the code BEFORE fix ec384e6 (Model/PinnedSegment.v, names [_pinned]): machine-checked record of finding F5.
+    Its "coplanarity" test was (delta x n).is_zero() *)
+(** what the pinned code guaranteed, and when it answered: the scalar triple product (coplanarity) did not enter *)
+Theorem C19_pinned_segment_characterised : forall (s r : S) (ta tb : R),
+  (seg_get_intersection_pt_pinned s r = Some (ta, tb) ->
+   solved s r ta tb /\ (seg_at s ta = seg_at r tb <-> triple s r = 0)) /\
+  ((exists t, seg_get_intersection_pt_pinned s r = Some t) <->
+   vis_same_direction (seg_as_vec s) (seg_as_vec r) = false /\
+   ~ tiny (vcross (seg_delta s r) (seg_normal s r)) /\
+   (e5 < Rabs (vz (seg_normal s r)) \/ e5 < Rabs (vx (seg_normal s r)) \/ e5 < Rabs (vy (seg_normal s r)))).
+Proof.
+  exact (fun s r ta tb => conj (fun H => conj (gipP_solved s r ta tb H) (solved_coincide_iff s r ta tb (gipP_solved s r ta tb H)))
+                               (gipP_some_iff s r)).
+Qed.
+(** F5, witness: (0,0,0)-(1,0,0) and (1/2,-1,1)-(1/2,1,1) are nowhere closer than 1, yet "crossed" at (1/2,0,0);
+    F5, the class [known_skew s r] = (delta . (a x b) <> 0): EVERY member that got an answer got two different points *)
+Theorem C19_pinned_segment_skew_reported_as_crossing_refuted :
+  (seg_get_intersection_pt_pinned f5_s f5_r = Some (1/2, 1/2) /\
+   seg_intersect_pinned f5_s f5_r = Some (mkV3 (1/2) 0 0) /\ seg_touches_pinned f5_s f5_r = Some (mkV3 (1/2) 0 0) /\
+   seg_at f5_s (1/2) = mkV3 (1/2) 0 0 /\ seg_at f5_r (1/2) = mkV3 (1/2) 0 1 /\
+   ~ coplanar f5_s f5_r /\ (forall ta tb, vlen2 (vsub (seg_at f5_s ta) (seg_at f5_r tb)) >= 1)) /\
+  (forall (s r : S) (ta tb : R),
+   known_skew s r = true -> seg_get_intersection_pt_pinned s r = Some (ta, tb) -> seg_at s ta <> seg_at r tb).
+Proof. exact (conj f5_refuted known_skew_wrong). Qed.
+(** F5, second class: segments starting at the same point were never reported (although they touch there) *)
+Theorem C19_pinned_segment_common_start_class_refuted :
+  (forall s r : S, known_common_start s r = true <-> sstart s = sstart r) /\
+  (forall s r : S, known_common_start s r = true -> seg_get_intersection_pt_pinned s r = None) /\
+  (exists s r : S, sstart s = sstart r /\ coplanar s r /\ vdot (seg_as_vec s) (seg_as_vec r) = 0 /\
+                   seg_at s 0 = seg_at r 0 /\ seg_touches_pinned s r = None).
+Proof. exact (conj known_common_start_true (conj known_common_start_none common_start_refuted)). Qed.
+(** outside the two classes the fix changes nothing: on coplanar pairs that the pinned code answered, live = pinned;
+    and outside the skew class the pinned code's touches were genuine common points *)
+Theorem C19_pinned_agrees_outside_known_classes : forall (s r : S) (p : V),
+  (known_skew s r = false <-> coplanar s r) /\
+  (coplanar s r -> ~ tiny (vcross (seg_delta s r) (seg_normal s r)) ->
+   seg_get_intersection_pt s r = seg_get_intersection_pt_pinned s r) /\
+  (known_skew s r = false -> seg_touches_pinned s r = Some p ->
+   exists ta tb, 0 <= ta <= 1 /\ 0 <= tb <= 1 /\ p = seg_at s ta /\ p = seg_at r tb).
+Proof. exact (fun s r p => conj (known_skew_false s r) (conj (gip_agrees_pinned s r) (touches_sound_outside_known_pinned s r p))). Qed.
+(** executed on primitive floats (the instance run against the crate): F5 in the pinned code and its absence in the live
+    code; the contains_point parametrisation (still present) *)
 Theorem C19_float_witnesses_refuted :
-  (seg_intersect (fs 0 0 0 1 0 0) (fs 0.5 (-1) 1 0.5 1 1) = Some (mkV3 0.5 0 0) /\
-   seg_touches (fs 0 0 0 1 0 0) (fs 0.5 (-1) 1 0.5 1 1) = Some (mkV3 0.5 0 0) /\
-   seg_get_intersection_pt (fs 0 0 0 1 0 0) (fs 0.5 (-1) 1 0.5 1 1) = Some (0.5, 0.5) /\
-   seg_get_intersection_pt_fixed (fs 0 0 0 1 0 0) (fs 0.5 (-1) 1 0.5 1 1) = None)%float /\
-  (seg_get_intersection_pt (fs 0 0 0 1 0 0) (fs 0 0 0 0 1 0) = None /\ seg_touches (fs 0 0 0 1 0 0) (fs 0 0 0 0 1 0) = None /\
-   seg_touches_fixed (fs 0 0 0 1 0 0) (fs 0 0 0 0 1 0) = Some (mkV3 0 0 0))%float /\
+  (seg_intersect_pinned (fs 0 0 0 1 0 0) (fs 0.5 (-1) 1 0.5 1 1) = Some (mkV3 0.5 0 0) /\
+   seg_touches_pinned (fs 0 0 0 1 0 0) (fs 0.5 (-1) 1 0.5 1 1) = Some (mkV3 0.5 0 0) /\
+   seg_get_intersection_pt_pinned (fs 0 0 0 1 0 0) (fs 0.5 (-1) 1 0.5 1 1) = Some (0.5, 0.5) /\
+   seg_get_intersection_pt (fs 0 0 0 1 0 0) (fs 0.5 (-1) 1 0.5 1 1) = None /\
+   seg_intersect (fs 0 0 0 1 0 0) (fs 0.5 (-1) 1 0.5 1 1) = None /\ seg_touches (fs 0 0 0 1 0 0) (fs 0.5 (-1) 1 0.5 1 1) = None)%float /\
+  (seg_get_intersection_pt_pinned (fs 0 0 0 1 0 0) (fs 0 0 0 0 1 0) = None /\ seg_touches_pinned (fs 0 0 0 1 0 0) (fs 0 0 0 0 1 0) = None /\
+   seg_touches (fs 0 0 0 1 0 0) (fs 0 0 0 0 1 0) = Some (mkV3 0 0 0) /\ seg_intersect (fs 0 0 0 1 0 0) (fs 0 0 0 0 1 0) = None)%float /\
   (seg_contains_point (fs 0 0 0 0x1.203af9ee75616p-50 1 0) (mkV3 0 2 0) = Ok true /\
    seg_contains_point (fs 0 0 0 0 1 0) (mkV3 0 2 0) = Ok false)%float.
 Proof. exact (conj f5_float (conj common_start_float noise_axis_float)). Qed.
-
-(** ** 2''. the repaired get_intersection_pt (Model/SegmentFixed.v): test |delta . n| <= 1e-5 |n| *)
-Theorem C19_fixed_skew_never_reported : forall s r : S,
-  e5 * vlen (seg_normal s r) < Rabs (triple s r) -> seg_get_intersection_pt_fixed s r = None.
-Proof. exact gipF_skew_none. Qed.
-Theorem C19_fixed_parameters : forall (s r : S) (ta tb : R), seg_get_intersection_pt_fixed s r = Some (ta, tb) ->
-  solved s r ta tb /\ Rabs (triple s r) <= e5 * vlen (seg_normal s r) /\ (coplanar s r -> seg_at s ta = seg_at r tb) /\
-  exists nk, e5 < Rabs nk /\ (nk = vx (seg_normal s r) \/ nk = vy (seg_normal s r) \/ nk = vz (seg_normal s r)) /\
-             vlen2 (vsub (seg_at s ta) (seg_at r tb)) * (nk * nk) = triple s r * triple s r.
-Proof.
-  exact (fun s r ta tb H => conj (proj1 (gipF_solved s r ta tb H)) (conj (proj2 (gipF_solved s r ta tb H))
-          (conj (gipF_coplanar_3d s r ta tb H) (solved_gap s r ta tb (proj1 (gipF_solved s r ta tb H)))))).
-Qed.
-Theorem C19_fixed_complete :
-  (forall (s r : S) (ta tb : R),
-  seg_at s ta = seg_at r tb -> vis_same_direction (seg_as_vec s) (seg_as_vec r) = false ->
-  (e5 < Rabs (vz (seg_normal s r)) \/ e5 < Rabs (vx (seg_normal s r)) \/ e5 < Rabs (vy (seg_normal s r))) ->
-  seg_get_intersection_pt_fixed s r = Some (ta, tb)) /\
-  (forall s r : S, coplanar s r -> ~ tiny (vcross (seg_delta s r) (seg_normal s r)) ->
-  seg_get_intersection_pt_fixed s r = seg_get_intersection_pt s r).
-Proof.
-  exact (conj (gipF_complete)
-              (gipF_agrees)).
-Qed.
-Theorem C19_fixed_common_start_touches : forall s r : S,
-  sstart s = sstart r -> vis_same_direction (seg_as_vec s) (seg_as_vec r) = false ->
-  (e5 < Rabs (vz (seg_normal s r)) \/ e5 < Rabs (vx (seg_normal s r)) \/ e5 < Rabs (vy (seg_normal s r))) ->
-  seg_get_intersection_pt_fixed s r = Some (0, 0) /\ seg_touches_fixed s r = Some (sstart s) /\ seg_intersect_fixed s r = None.
-Proof. exact gipF_common_start. Qed.
-Theorem C19_fixed_windows :
-  (forall (s r : S) (p : V),
-  (seg_intersect_fixed s r = Some p <->
-   exists ta tb, seg_get_intersection_pt_fixed s r = Some (ta, tb) /\ (0 <= ta < 1 /\ e8 <= tb < 1 - e8) /\ p = seg_at s ta) /\
-  (seg_touches_fixed s r = Some p <->
-   exists ta tb, seg_get_intersection_pt_fixed s r = Some (ta, tb) /\ (0 <= ta <= 1 /\ 0 <= tb <= 1) /\ p = seg_at s ta)) /\
-  (seg_get_intersection_pt_fixed f5_s f5_r = None /\ seg_intersect_fixed f5_s f5_r = None /\ seg_touches_fixed f5_s f5_r = None).
-Proof.
-  exact (conj ((fun s r p => conj (seg_intersect_fixed_spec s r p) (seg_touches_fixed_spec s r p)))
-              (f5_fixed)).
-Qed.
 
 (** ** 3. triangles *)
 (** (alpha, beta) of [test_point] are THE barycentric coordinates of the orthogonal projection of p on the plane *)
